@@ -42,7 +42,7 @@ pkgs=$(place_demos)
 run_demo() { rc=0; for p in $pkgs; do (cd $p && timeout 300 go test -vet=off -count=1 -run . . >/tmp/wtv/$id.demo.$1.log 2>&1) || rc=1; done; return $rc; }
 if run_demo clean; then res="$res demo_clean=PASS"; else res="$res demo_clean=FAIL"; fi
 find $wt -name 'zz_seeded_*' -delete
-if git apply $patch 2>/tmp/wtv/$id.apply.log; then res="$res apply=OK"; else res="$res apply=FAIL"; echo "$res"; cd /; git -C /repo worktree remove --force $wt; exit 1; fi
+if git apply $patch 2>/tmp/wtv/$id.apply.log || { git apply --3way $patch 2>>/tmp/wtv/$id.apply.log && git reset -q; }; then res="$res apply=OK"; else res="$res apply=FAIL"; echo "$res"; cd /; git -C /repo worktree remove --force $wt; exit 1; fi
 if go build ./... 2>/tmp/wtv/$id.build.log; then res="$res build=OK"; else res="$res build=FAIL"; fi
 if timeout 600 go test -vet=off -count=1 ./... >/tmp/wtv/$id.suite.log 2>&1; then res="$res suite=PASS"; else res="$res suite=FAIL"; fi
 pkgs=$(place_demos)
